@@ -66,6 +66,7 @@ def handle (op : String) (j : Json) : Option (Except String Json) :=
       let A ← J.op (← J.field j "A")
       .ok (Json.bool (C05.bkMajoranaOk tol (← nat j "n") (A.map fun (t, c) => (t.map (·.1), c))))
   | "c05.tree" => some do .ok (J.ofOp (C05.bkTreeFermion tol (← nat j "n") (← J.op (← J.field j "A"))))
+  | "c05.tree_ok" => some do .ok (Json.bool (C05.bkTreeFermionOk tol (← nat j "n") (← J.op (← J.field j "A"))))
   | "c05.tree_sets" => some do
       let n ← nat j "n"; let i ← nat j "index"
       let t := C05.mkTree n
